@@ -127,7 +127,7 @@ func generate0(r *gen.Rand, i int) Input {
 // ---------------------------------------------------------------- runtime
 
 const prologue = rb.Prologue + `
-var __seen;
+var __seen, __popped;
 `
 
 var (
@@ -148,10 +148,6 @@ func theVM() *otto.Otto {
 }
 
 func resetVM() { vm = nil }
-
-// resetVMKeep is called after a confirmed escaping panic: the runtime keeps
-// working (otto unwound through its own defers), so the history can continue.
-func resetVMKeep() {}
 
 func inputKey(in Input) string {
 	b, _ := json.Marshal(in)
@@ -248,8 +244,8 @@ func (k *checker) try(expr string) attempt {
 		a.runErr = out.Err
 		// the same statement without try/catch: does the Go panic escape Run?
 		if o2 := ox.Run(v, "("+expr+")"); o2.Panic != nil {
+			// (otto unwound through its own defers: the runtime keeps working)
 			a.runErr = fmt.Errorf("%v (without try/catch the same statement makes a Go panic escape Run: %v)", out.Err, o2.Panic)
-			resetVMKeep()
 		}
 		return a
 	}
@@ -359,12 +355,9 @@ func (k *checker) checkArg(ac ArgCase) bool {
 	// a single array-like in variadic tail position may be spread
 	var spread *exp
 	if ac.Variadic && len(ac.Args) == len(ac.Params) {
-		if _, ok := seqView(ac.Args[nfix]); ok && ac.Params[nfix] != "any" {
+		if _, ok := seqView(ac.Args[nfix]); ok {
 			e := denote("[]"+ac.Params[nfix], ac.Args[nfix], k.numberIn)
 			spread = &e
-		} else if ok {
-			overall = worst(overall, okOrFail)
-			exps[nfix] = exp{m: unspecified, kind: "free"}
 		}
 	}
 	k.c.Feature("expect:" + overall.String())
@@ -390,33 +383,40 @@ func (k *checker) checkArg(ac ArgCase) bool {
 	}
 	// accepted: every received parameter must be the exact denotation
 	problems := k.judgeAccepted(ac, exps, rec.got, nfix)
-	if spread != nil && rec.got[nfix].Len() != 1 && spread.m == mustFail {
-		problems = "silent: spread argument " + fmt.Sprint(nfix) + " (..." + ac.Params[nfix] + ") " + spread.why + ", yet the function received " + rb.CanonValue(rec.got[nfix])
-	} else if spread != nil && rec.got[nfix].Len() != 1 {
-		if s := check(*spread, rec.got[nfix]); s != "" {
-			problems = "wrong: spread argument " + fmt.Sprint(nfix) + " (..." + ac.Params[nfix] + "): " + s
-		}
-	}
 	if problems != "" && spread != nil {
-		// alternative reading: the array was spread over the variadic tail
-		if spread.m != mustFail {
-			if s := check(*spread, rec.got[nfix]); s == "" {
-				fixedOK := true
-				for i := 0; i < nfix; i++ {
-					if exps[i].m == mustFail || check(exps[i], rec.got[i]) != "" {
-						fixedOK = false
-					}
-				}
-				if fixedOK {
-					problems = ""
-				}
+		// alternative reading: the single array(-like) was spread over the variadic tail
+		tail := rec.got[nfix]
+		alt := ""
+		if spread.m == mustFail {
+			alt = zfMark(*spread, tail) + "silent: spread argument " + fmt.Sprint(nfix) + " (..." + ac.Params[nfix] + ") " + spread.why + ", yet the function received " + rb.CanonValue(tail)
+		} else if s := check(*spread, tail); s != "" {
+			alt = zfMark(*spread, tail) + "wrong: spread argument " + fmt.Sprint(nfix) + " (..." + ac.Params[nfix] + "): " + s
+		}
+		for i := 0; i < nfix && alt == ""; i++ {
+			if exps[i].m == mustFail || check(exps[i], rec.got[i]) != "" {
+				alt = problems
 			}
+		}
+		switch {
+		case alt == "":
+			problems = ""
+		case tail.Len() != 1 || zeroFilled(*spread, tail):
+			problems = alt
 		}
 	}
 	if problems != "" {
 		k.fail("mismatch", site, "exact or loud", problems, describeArgs(ac))
 	}
 	return true
+}
+
+// zfMark prefixes a failure text when the received value shows the known
+// "array-like zero-filled" deviation.
+func zfMark(e exp, got reflect.Value) string {
+	if zeroFilled(e, got) {
+		return "array-like zero-filled: "
+	}
+	return ""
 }
 
 func describeArgs(ac ArgCase) string {
@@ -442,7 +442,7 @@ func (k *checker) judgeAccepted(ac ArgCase, exps []exp, got []reflect.Value, nfi
 			g = tail.Index(i - nfix)
 		}
 		if exps[i].m == mustFail {
-			return fmt.Sprintf("silent: argument %d (%s) %s, yet the function received %s", i, t, exps[i].why, rb.CanonValue(g))
+			return fmt.Sprintf("%ssilent: argument %d (%s) %s, yet the function received %s", zfMark(exps[i], g), i, t, exps[i].why, rb.CanonValue(g))
 		}
 		if t == "ottoValue" {
 			val, _ := g.Interface().(otto.Value)
@@ -452,7 +452,7 @@ func (k *checker) judgeAccepted(ac ArgCase, exps []exp, got []reflect.Value, nfi
 			continue
 		}
 		if s := check(exps[i], g); s != "" {
-			return fmt.Sprintf("wrong: argument %d (%s): %s", i, t, s)
+			return fmt.Sprintf("%swrong: argument %d (%s): %s", zfMark(exps[i], g), i, t, s)
 		}
 	}
 	if ac.Variadic && got[nfix].Len() != len(ac.Args)-nfix {
@@ -633,6 +633,10 @@ func (k *checker) checkCB(cb CBCase) bool {
 			return true
 		}
 		e = exp{m: okOrFail, kind: "scalar", want: cb.Arg}
+		if k := cb.Arg.Kind(); k == reflect.Slice || k == reflect.Map {
+			// a nil container comes back empty: compare contents, not nil-ness
+			e = exp{m: okOrFail, kind: "val", val: valCanonGV(cb.Arg)}
+		}
 		if cb.Arg.T == "nil" || cb.In == "any" {
 			e = exp{m: unspecified, kind: "free"}
 		}
@@ -657,9 +661,9 @@ func (k *checker) checkCB(cb CBCase) bool {
 		return true
 	}
 	if e.m == mustFail {
-		k.fail("mismatch", site, "exact or loud", "silent: result "+e.why+", yet Go received "+rb.CanonValue(results[0]), "")
+		k.fail("mismatch", site, "exact or loud", zfMark(e, results[0])+"silent: result "+e.why+", yet Go received "+rb.CanonValue(results[0]), "")
 	} else if s := check(e, results[0]); s != "" {
-		k.fail("mismatch", site, "exact or loud", "wrong: "+s, "")
+		k.fail("mismatch", site, "exact or loud", zfMark(e, results[0])+"wrong: "+s, "")
 	}
 	return true
 }
